@@ -248,6 +248,7 @@ func c18(p *P) {
 	}
 
 	// ---- R3 admission
+	p.gEquality("C18.R3")
 	if fn := p.fn("C18.R3", "chainexchange.PubSubChainExchange.validatePubSubMessage"); fn != nil {
 		// one snapshot of the node's progress decides range AND base: reading it twice lets the instance advance in between
 		nProg := 0
